@@ -293,7 +293,7 @@ type runOut struct {
 	budget   *vm.GasBudget // direct mode: what evm.Call / evm.Create returned
 	exitErr  map[int]error // error of the last frame that exited at each tracer depth
 	exits    int
-	overrun  bool          // step budget exceeded (only shrink candidates do that)
+	overrun  bool // step budget exceeded (only shrink candidates do that)
 }
 
 const stepBudget = 20000000
@@ -725,7 +725,7 @@ func main() {
 			"if/else and counted loops with valid jump tables, nested CALL/CALLCODE/DELEGATECALL/STATICCALL/CREATE/CREATE2 to other generated contracts, reverts, selfdestructs, logs, " +
 			"templates for self-recursion to depth 1025, operand-stack growth to 1024/1025, memory growth, plus an adversarial stream of raw random bytes and mutated programs; " +
 			"gas limits random and, for a third of the cases, exactly the gas used by a generous run and that value +-1. Each case is compared with the model under Cancun / Prague / Osaka " +
-			"and run under all 16 rule sets Frontier..Bogota for the resource oracle. Non-trivial: the outermost frame or its callees executed at least 3 instructions; distinct = distinct case line.",
+			"and run under all 16 rule sets Frontier..Bogota for the resource oracle. Stack-boundary probes: every opcode byte at heights need-1, need (and around the overflow bound) and every DUPN/SWAPN/EXCHANGE immediate at heights around its depth, in the outermost frame or in a callee below a caller holding sentinel stack items, checked against the harness's own pops/pushes table under the rule sets in the case's mask and compared with the model under 'Osaka + EIP-8024'. Call trees of depth 2-4 with storage writes, value transfers to accounts that do not exist yet, creations and every kind of exit at every level (Amsterdam state gas). Non-trivial: the outermost frame or its callees executed at least 3 instructions; distinct = distinct case line.",
 		Gen:         gen,
 		CaseTimeout: 40 * time.Second,
 		Run:         run,
